@@ -313,10 +313,49 @@ def g_dfs(ck: Check, rule: str) -> None:
                   f"a successor is discarded unvisited under `{logic.show(pc)[:200]}`, which does not imply a permitted "
                   f"reason ({' | '.join(logic.show(a)[:80] for a in allowed) or 'none'}): trap spaces below it are never "
                   f"explored although the expansion reports completion")
+        # the code that schedules successors can run: every push of a new frame has a satisfiable path condition (a test forced
+        # to a constant in front of it makes all the obligations above hold vacuously)
+        new_pushes = [c_ for c_ in ast.walk(loop) if isinstance(c_, ast.Call) and isinstance(c_.func, ast.Attribute) and c_.func.attr == "append"
+                      and c_.args and isinstance(c_.args[0], ast.Tuple) and len(c_.args[0].elts) == 2 and is_none(c_.args[0].elts[1])]
+        live = False
+        for c_ in new_pushes:
+            try:
+                if logic.satisfiable(fm.pc(fm.cfgn(c_))) and _reachable_in_round(fm, loop, fm.cfgn(c_)):
+                    live = True
+            except logic.TooBig:
+                live = True
+        if new_pushes:
+            ck.ob(rule, fm, loop, live, "successors can be scheduled" if live else
+                  "no path through the loop body reaches the statement that schedules a successor: the loop only empties the "
+                  "stack, nothing below the start node is ever visited, and completion is still reported", key="scheduling is reachable")
         # exits that abandon the rest of the list
         for n in ast.walk(loop):
             if isinstance(n, ast.Break) and fm.cfg.enclosing_loops(fm.cfgn(n))[0] is loop:
                 ck.ob(rule, fm, n, False, "`break` leaves unprocessed frames on the stack")
+
+
+def _reachable_in_round(fm: FuncModel, loop, target) -> bool:
+    """target is reachable from the loop header along edges whose constant tests are respected (`if True:` has no false edge)"""
+    def const(e):
+        if isinstance(e, ast.Constant) and isinstance(e.value, bool):
+            return e.value
+        if isinstance(e, ast.UnaryOp) and isinstance(e.op, ast.Not):
+            v = const(e.operand)
+            return None if v is None else not v
+        if isinstance(e, ast.BoolOp):
+            vs = [const(x) for x in e.values]
+            if isinstance(e.op, ast.Or):
+                return True if True in vs else (False if all(v is False for v in vs) else None)
+            return False if False in vs else (True if all(v is True for v in vs) else None)
+        return None
+    hdr = fm.cfg.loop_header[loop]
+    dead = []
+    for b in fm.cfg.nodes:
+        if b.kind == "branch" and b.test is not None:
+            v = const(b.test)
+            if v is not None and b.pol != v:
+                dead.append(b)
+    return target.id in fm.cfg.reach_avoiding(hdr, dead)
 
 
 def _seen_init(ck: Check, rule: str, fm: FuncModel, loop, seen: str | None) -> None:
